@@ -97,7 +97,10 @@ def classify(diags, lines, fns):
         spans = d.get("spans", [])
         prim = next((s for s in spans if s.get("is_primary")), spans[0] if spans else None)
         if any(m in msg for m in RLIMIT_MSGS):
-            rlimit.append(msg)
+            fn_rl = None
+            if prim is not None and prim["file_name"].endswith(("gen.rs", "gen_canary.rs")) and 1 <= prim["line_start"] <= len(lines):
+                fn_rl = lines[prim["line_start"] - 1].get("fn")
+            rlimit.append(dict(message=msg, fn=fn_rl, line=prim["line_start"] if prim else None))
             continue
         if not any(m in msg for m in FAIL_MSGS) or prim is None:
             other.append(dict(message=msg, rendered=d.get("rendered", "")[:1500]))
@@ -260,10 +263,15 @@ class Session:
         if res["json"] is None:
             raise Undecided("verus produced no JSON (rc=%s): %s" % (res["rc"], res["stderr_tail"][-800:]))
         failed, other, rlimit = classify(res["diags"], self.lines, self.fns)
-        if rlimit and self.tier == "quick":
-            # one retry at 3x before giving up
-            res = self.cached("main_rl180", lambda: run_verus(self.gen_path, 180))
-            failed, other, rlimit = classify(res["diags"], self.lines, self.fns)
+        if rlimit:
+            # one retry at 3x before giving up; definite failures of either run are kept
+            res2 = self.cached("main_rl%d" % (rl * 3), lambda: run_verus(self.gen_path, rl * 3))
+            failed2, other2, rlimit = classify(res2["diags"], self.lines, self.fns)
+            seen = {(f["fn"], f["label"], f["message"], str(f["repo"])) for f in failed2}
+            failed = failed2 + [f for f in failed if (f["fn"], f["label"], f["message"], str(f["repo"])) not in seen]
+            other = other or other2
+            res2["wall"] = res["wall"] + res2["wall"]
+            res = res2
         self.main = res
         self.failed, self.other, self.rlimit = failed, other, rlimit
         vr = res["json"].get("verification-results", {})
@@ -410,6 +418,11 @@ def decide(prop, sess, tier):
     labelled, fns, implicit = obligations_for(sess, prop)
     if not labelled and not implicit:
         raise Undecided("zero obligations for %s (vacuous)" % prop)
+    if sess.rlimit and not failed:
+        hit = [r for r in sess.rlimit if r["fn"] is None or r["fn"] in fns]
+        if hit:
+            raise Undecided("solver resource limit exceeded in %s (after one retry at 3x): undecided, not a violation" %
+                            sorted({str(r["fn"]) for r in hit}))
     if sess.canary_missing:
         mine = [ks for ln, ks in sess.canary_missing if any(k in fns for k in ks)]
         if mine:
